@@ -125,21 +125,28 @@ func wrapCustom(op *CustomOp, cfgRec *Recorder) eval.Operator {
 // step tracer
 
 type Tracer struct {
-	MaxStack int16 // 0: unknown
-	lastPC   int32
-	Steps    int64
-	Jumps    int64
-	Peak     int16
-	Bad      string // first violated assertion
+	MaxStack   int16 // 0: unknown
+	lastPC     int32
+	chainLast  int32 // last target of the current jump chain (-2: no chain)
+	chainSteps int
+	Steps      int64
+	Jumps      int64
+	Peak       int16
+	Bad        string // first violated assertion
 
 	YieldMask uint32 // yield when rng&mask == 0 (0 = never)
 	rng       uint32
 	Switches  int64
 }
 
-func NewTracer() *Tracer { return &Tracer{lastPC: -1} }
+func NewTracer() *Tracer { return &Tracer{lastPC: -1, chainLast: -2} }
 
-func (t *Tracer) Begin() { t.lastPC = -1 }
+func (t *Tracer) Begin() { t.lastPC = -1; t.chainLast = -2 }
+
+// stepAbort is the panic value the step monitor uses to abandon an evaluation whose program position went backwards.
+type stepAbort struct{ why string }
+
+func (s stepAbort) String() string { return "step monitor: " + s.why }
 
 type tracerCtx struct {
 	context.Context
@@ -168,12 +175,43 @@ func stepHook(ctx *eval.Ctx, e *eval.Expr, kind uint8, pc int16, osTop int16, os
 		return
 	}
 	t := tc.t
+	if kind&4 != 0 { // a short-circuit jump (Eval) / climb to the parent (TryEval)
+		if pc == -1 {
+			return
+		}
+		t.Jumps++
+		if kind&2 != 0 {
+			// TryEval climbs through the parent table; an if node precedes its branches, so a climb may legitimately
+			// go backwards. A chain can never be longer than the program (<= 32767 nodes): more steps mean a cycle.
+			t.chainSteps++
+			if t.chainSteps > 40000 {
+				if t.Bad == "" {
+					t.Bad = fmt.Sprintf("parent-climbing chain longer than any program (cycle) at position %d", t.lastPC)
+				}
+				panic(stepAbort{t.Bad})
+			}
+			return
+		}
+		// Eval: jump targets strictly increase within one chain and lie ahead of the current position
+		if (t.chainLast != -2 && int32(pc) <= t.chainLast) || int32(pc) <= t.lastPC {
+			if t.Bad == "" {
+				t.Bad = fmt.Sprintf("short-circuit jump chain does not move forward: target %d after %d (position %d)", pc, t.chainLast, t.lastPC)
+			}
+			panic(stepAbort{t.Bad})
+		}
+		t.chainLast = int32(pc)
+		return
+	}
 	if kind&1 == 0 { // top of loop
 		t.Steps++
+		t.chainLast = -2
+		t.chainSteps = 0
 		if int32(pc) <= t.lastPC {
 			if t.Bad == "" {
 				t.Bad = fmt.Sprintf("program position not strictly increasing: %d after %d", pc, t.lastPC)
 			}
+			// a backward jump may never terminate: abandon this evaluation (recovered by guard)
+			panic(stepAbort{t.Bad})
 		} else if int32(pc)-t.lastPC > 1 {
 			t.Jumps++
 		}
